@@ -50,6 +50,7 @@ func runC37(c *core.Ctx) {
 		total += r.Accesses
 	}
 	c.Floor("guarded accesses in txnpool", total, 40)
+	checkCheckThenInsertAtomic(c)
 
 	// ---- insertion keys
 	for _, spec := range []struct {
